@@ -255,6 +255,10 @@ class Actor(object):
                 return st[1]
             elif k == "raise":
                 from .srcgen import make_exception
+                if isinstance(st[1], dict) and st[1]["type"] == "FromWrite":
+                    # the failure comes out of a formatted write of the handler
+                    (io.error_line if st[1].get("stream") == "err" else io.write_line)(st[1]["msg"])
+                    raise make_exception(st[1])  # (only if the formatter took the text after all)
                 exc = make_exception(st[1]) if isinstance(st[1], dict) else st[1]
                 if st[1] == "KeyboardInterrupt":
                     raise KeyboardInterrupt()
